@@ -234,7 +234,7 @@ func (g *genCtx) runC13(reqs []*genReq) {
 	})
 	for k, j := range jobs {
 		r := j[0].(*genReq)
-		o.kase("GENFEAT", []string{"[" + j[1].(string) + "]", fmt.Sprint(r.proto3Requested(r.generate))}, observedFeatures(results[k]))
+		o.kase("GENFEAT", []string{"[" + j[1].(string) + "]", fmt.Sprint(r.proto3Requested(r.generate)), hasMsgFlag(r)}, featObs(observedFeatures(results[k]), r))
 	}
 }
 
